@@ -724,6 +724,7 @@ inductive Op where
   | getchar (noecho : Bool)
   | inputto (noecho : Bool)
   | serve
+  | wpipe (bytes : List Byte)
   deriving Repr, BEq
 
 def stEv (s : S) : Ev := .st s.tstart s.tend s.dec.stateNat s.dec.sbPos s.dec.fl.toNat
@@ -796,6 +797,32 @@ def finishLoop (o : Oracle) : Nat → Run → Run
     if r.s.sock.isEmpty || r.dead || r.s.closed then r
     else finishLoop o fuel (drainLoop 5000 (doRead o r))
 
+/-- `line`: one blob handed to add_console_line -/
+def doLine (r : Run) (b : List Byte) : Run :=
+  if r.s.closed then r else
+  match addConsoleLine r.s b with
+  | .error e => r.crash e
+  | .ok s => r.add s [.cl b]
+
+/-- lib/async/console_worker.c: the worker thread reads at most `CONSOLE_MAX_LINE - consoleReadReserve` bytes per
+    `read (STDIN_FILENO, line_buffer, ..)`; each read is one blob -/
+def workerChunks : Nat → List Byte → List (List Byte)
+  | 0, _ => []
+  | fuel + 1, data =>
+    if data.isEmpty ∨ consoleMaxLine - consoleReadReserve = 0 then []
+    else data.take (consoleMaxLine - consoleReadReserve) :: workerChunks fuel (data.drop (consoleMaxLine - consoleReadReserve))
+
+/-- one blob through the worker and the console branch of process_io: `char line_buffer[CONSOLE_MAX_LINE]` on both
+    sides, `line_buffer[bytes_read] = '\0'`, enqueue / dequeue of `bytes_read + 1` bytes, add_console_line -/
+def doLineW (r : Run) (c : List Byte) : Run :=
+  if r.dead then r
+  else if c.length + 1 > consoleMaxLine then r.crash "console worker: line_buffer[bytes_read] behind line_buffer[CONSOLE_MAX_LINE]"
+  else doLine r c
+
+/-- `wpipe`: bytes arriving on the console's stdin pipe -/
+def doWpipe (r : Run) (data : List Byte) : Run :=
+  (workerChunks (data.length + 1) data).foldl doLineW r
+
 def stepOp (o : Oracle) (r : Run) (op : Op) : Run :=
   if r.dead then r else
   match op with
@@ -811,11 +838,8 @@ def stepOp (o : Oracle) (r : Run) (op : Op) : Run :=
   | .extract => (doExtract r).1
   | .drain => drainLoop 5000 r
   | .finish => finishLoop o 20000 r
-  | .line b =>
-    if r.s.closed then r else
-    match addConsoleLine r.s b with
-    | .error e => r.crash e
-    | .ok s => r.add s [.cl b]
+  | .line b => doLine r b
+  | .wpipe b => doWpipe r b
   | .getchar ne => doSetCall r true ne
   | .inputto ne => doSetCall r false ne
   | .serve => doServe r
